@@ -3,7 +3,7 @@ import re
 
 from ..cfg import FnView, Renderer, walk, show, strip, branches, guards_of, flat_guards, norm_cond, bool_edges
 from ..facts import callee_names, short
-from ..util import view, crate_fns, root_name, agg_field, expr_calls, expr_fields, field_writes, last_field, field_path
+from ..util import view, crate_fns, root_name, agg_field, expr_calls, expr_fields, expr_vars, field_writes, last_field, field_path
 
 EXPLANATION = (
     "Static rules over table/src/lib.rs MIR: R06.1 every NlriChange construction takes current_paths from "
@@ -82,6 +82,112 @@ def run(prog, rep, tier):
     check_ids(prog, r3)
     r4 = rep.rule("R06.4", "deferral: NoChange only after the entry is stored; end_deferral clears the flag and re-emits everything")
     check_deferral(prog, r4)
+    r5 = rep.rule("R06.5", "every best-path read uses the full eligibility predicate (not filtered and next hop valid), before and after the mutation alike")
+    check_best_predicate(prog, r5)
+    r6 = rep.rule("R06.6", "Table::insert reports any_changed when a visible path is added or a visible path is replaced")
+    check_insert_any_changed(prog, r6)
+
+
+# ---------------------------------------------------------------------------------------------- R06.5
+def check_best_predicate(prog, r):
+    """`best_changed` compares a read of the best path before the mutation with one after it.  Both reads must select
+    by the same predicate the selection itself uses: Destination::unfiltered_best, or a `find` whose closure tests
+    both is_filtered and is_nexthop_invalid.  (A read that accepts a next-hop-invalid entry as "old best" makes the
+    comparison miss the moment that entry becomes eligible again.)"""
+    n = 0
+    for k in crate_fns(prog, "rustybgp_table"):
+        ix = prog.ix[k]
+        if not any(a.endswith("NlriChange") for a in ix.get("aggs", [])) and not any("NlriChange" in a for a in ix.get("aggs", [])):
+            continue
+        fv = view(prog, k)
+        for bi, t in fv.calls(re.compile(r".*Iterator::find$")):
+            if "RibEntry" not in t["f"].get("ga", ""):
+                continue
+            ck = None
+            for a in t["args"]:
+                p = a.get("m") or a.get("c")
+                if p and not p.get("p") and "{closure@" in fv.f["locals"][p["l"]]:
+                    for b2, si, s in fv.defs().get(p["l"], []):
+                        if si != "t" and s["rv"]["r"] == "agg" and s["rv"].get("k") == "closure":
+                            ck = s["rv"]["def"]
+            if not ck:
+                continue
+            callees = {prog.name(c) for c in prog.callees(ck) if c in prog.ix}
+            if not any(c.endswith("RibEntry::is_filtered") for c in callees):
+                continue                      # not an eligibility search (e.g. lookup by path id)
+            n += 1
+            r.analysed(root_name(prog, k))
+            if any(c.endswith("RibEntry::is_nexthop_invalid") for c in callees):
+                r.ok("%s@%d: best read tests is_filtered and is_nexthop_invalid" % (short(root_name(prog, k)), fv.line(bi)))
+            else:
+                r.fail(root_name(prog, k), "best-read-ignores-nexthop-validity@%s" % _which_read(fv, bi),
+                       "the best-path read at line %d selects the first entry that is not filtered but accepts a next-hop-invalid one: "
+                       "best_changed then compares against an entry that was never the selected best" % fv.line(bi), fv.loc(bi))
+    r.floor("find-based best reads in the table crate", n, 2)
+
+
+def _which_read(fv, bi):
+    """Name of the variable the read ends up in (old_best_key / new_best_key), for a stable violation key."""
+    t = fv.blocks[bi]["t"]
+    seen = {t["dest"]["l"]}
+    for b in sorted(fv.reach_after(bi) | {t.get("to")}):
+        if b is None or b not in fv.live:
+            continue
+        for s in fv.blocks[b]["s"]:
+            rv = s.get("rv")
+            if rv and rv["r"] == "use":
+                p = rv["o"].get("m") or rv["o"].get("c")
+                if p and p["l"] in seen:
+                    seen.add(s["p"]["l"])
+        tt = fv.blocks[b]["t"]
+        if tt["t"] == "call" and any((a.get("m") or a.get("c") or {}).get("l") in seen for a in tt.get("args", [])) and tt.get("dest"):
+            seen.add(tt["dest"]["l"])
+        for l in sorted(seen):
+            nm = fv.local_name.get(l)
+            if nm and "best" in nm:
+                return nm
+    return "?"
+
+
+# ---------------------------------------------------------------------------------------------- R06.6
+def check_insert_any_changed(prog, r):
+    fv = view(prog, prog.one(r"rustybgp_table::Table::insert"))
+    r.analysed(fv.name)
+    ls = [l for l, nme in fv.local_name.items() if nme == "any_changed"]
+    if not ls:
+        r.unanalysable("Table::insert has no `any_changed` local", fv.loc())
+        return
+    rend = Renderer(fv, depth=12, through_names=True)
+    for l in ls:
+        for bi, si, s in fv.defs().get(l, []):
+            if bi not in fv.live:
+                continue
+    # the value of any_changed: union of the expressions of all its definitions (|| is lowered to several assignments)
+    new_side = old_side = False
+    for l in ls:
+        for bi, si, s in fv.defs().get(l, []):
+            if bi not in fv.live:
+                continue
+            e = rend.rvalue(s["rv"], 12) if si != "t" else rend.call_expr(fv.blocks[bi]["t"], 12, bi)
+            vs, cs = set(expr_vars(e)), set(expr_calls(e))
+            gs = flat_guards(fv, bi)
+            for g, lab, how in gs:
+                vs |= set(expr_vars(g))
+                cs |= set(expr_calls(g))
+            if "filtered" in vs:
+                new_side = True
+            for x in list(walk(e)) + [y for g, lab, how in gs for y in walk(g)]:
+                if isinstance(x, tuple) and x and x[0] == "agg" and x[1] == "closure" and x[2] in prog.ix:
+                    if any(prog.name(c).endswith("RibEntry::is_filtered") for c in prog.callees(x[2]) if c in prog.ix):
+                        old_side = True
+            if any(c.endswith("RibEntry::is_filtered") for c in cs) and "replaced" in vs:
+                old_side = True
+    if new_side and old_side:
+        r.ok("Table::insert: any_changed depends on the new path's visibility and on the replaced path's")
+    else:
+        r.fail(fv.name, "any_changed-misses-%s" % ("replaced-visible-path" if new_side else "new-visible-path"),
+               "any_changed in Table::insert does not depend on %s: replacing a visible non-best path by a filtered one (or the reverse) produces NoChange, "
+               "so add-path consumers keep a path the RIB no longer exports" % ("the visibility of the entry being replaced" if new_side else "the visibility of the new path"), fv.loc())
 
 
 # ---------------------------------------------------------------------------------------------- R06.2
